@@ -57,17 +57,17 @@ def answer (fn : String) (bytes : List UInt8) (a1 a2 : Option Nat) : String :=
   | "entnode" => showOut (entNodeCtor C05.entNodeCap C05.entNodeCtorCopy (List.replicate n 65))
   | "subsuper" =>
     match entNmArr C05.entNmArrStorage C05.entNmArrGuard n with
-    | .ok _ => showOut (nms C05.nmsStorage C05.entNmArrGuard n)
+    | .ok _ => showOut (nms C05.nmsStorage C05.nmsLoopGuard C05.entNmArrGuard n)
     | o => showOut o
-  | "skipinst" => showLoop (fun r => s!"sev={r.sev} len={r.len} ") (skipInstance fuel (IS.ofBytes bytes))
+  | "skipinst" => showLoop (fun r => s!"sev={r.sev} len={r.len} ") (skipInstance C05.skipInstanceSkipsComments C05.readCommentIters fuel (IS.ofBytes bytes))
   | "findstart" => showLoop (fun r => s!"sev={r.sev} len={r.len} ") (findStartOfInstance fuel (IS.ofBytes bytes))
   | "readcomment" =>
-    showLoop (fun r => s!"ret={r.sev} len={r.len} ") (readComment C05.readCommentIters fuel (IS.ofBytes bytes))
-  | "toksep" => showLoop (fun _ => "") (readTokenSeparator C05.readCommentIters fuel (IS.ofBytes bytes))
+    showLoop (fun r => s!"ret={r.sev} len={r.len} ") (readComment C05.skipInstanceSkipsComments C05.readCommentIters fuel (IS.ofBytes bytes))
+  | "toksep" => showLoop (fun _ => "") (readTokenSeparator C05.skipInstanceSkipsComments C05.readCommentIters fuel (IS.ofBytes bytes))
   | "findheader" =>
-    showLoop (fun r => s!"found={r.sev} ") (findHeaderSectionWith C05.readCommentIters C05.findHeaderGetlineN C05.findHeaderExit fuel (IS.ofBytes bytes))
+    showLoop (fun r => s!"found={r.sev} ") (findHeaderSectionWith C05.skipInstanceSkipsComments C05.readCommentIters C05.findHeaderGetlineN C05.findHeaderExit fuel (IS.ofBytes bytes))
   | "recover" => showLoop (fun r => s!"len={r.len} ") (recoveryScan fuel (IS.ofBytes bytes) (UInt8.ofNat n))
-  | "exportlist" => showLoop (fun _ => "") (exportLoop C05.exportLoopChecksStreamCreate C05.readCommentIters fuel (IS.ofBytes bytes) chComma 0)
+  | "exportlist" => showLoop (fun _ => "") (exportLoop C05.exportLoopChecksStreamCreate C05.skipInstanceSkipsComments C05.readCommentIters fuel (IS.ofBytes bytes) chComma 0)
   | _ => "bad-op"
 
 def handle (line : String) : String :=
